@@ -17,8 +17,12 @@ use aquatic_common::{CanonicalSocketAddr, IndexMap};
 use aquatic_udp_protocol::*;
 use arrayvec::ArrayVec;
 use crossbeam_channel::Sender;
+#[cfg(not(greatest_ape_aquatic_verif))]
 use hashbrown::HashMap;
+#[cfg(greatest_ape_aquatic_verif)]
+use crate::verif_shims::{probe as verif_probe, HashMap, RwLock, RwLockUpgradableReadGuard};
 use hdrhistogram::Histogram;
+#[cfg(not(greatest_ape_aquatic_verif))]
 use parking_lot::RwLockUpgradableReadGuard;
 use rand::prelude::SmallRng;
 use rand::{Rng, RngExt};
@@ -29,6 +33,7 @@ use crate::config::Config;
 const SMALL_PEER_MAP_CAPACITY: usize = 2;
 
 use aquatic_udp_protocol::InfoHash;
+#[cfg(not(greatest_ape_aquatic_verif))]
 use parking_lot::RwLock;
 
 #[derive(Clone)]
@@ -223,6 +228,9 @@ impl<I: Ip> TorrentMapShards<I> {
             }
         };
 
+        #[cfg(greatest_ape_aquatic_verif)]
+        verif_probe(1);
+
         let mut peer_map = peer_map.write();
 
         peer_map.announce(
@@ -242,6 +250,9 @@ impl<I: Ip> TorrentMapShards<I> {
         };
 
         for info_hash in request.info_hashes {
+            #[cfg(greatest_ape_aquatic_verif)]
+            verif_probe(2);
+
             let torrent_map_shard = self.get_shard(&info_hash);
 
             let statistics = if let Some(peer_map) = torrent_map_shard.read().get(&info_hash) {
@@ -290,6 +301,9 @@ impl<I: Ip> TorrentMapShards<I> {
                 .collect::<Vec<_>>();
 
             for (info_hash, peer_map) in torrent_references {
+                #[cfg(greatest_ape_aquatic_verif)]
+                verif_probe(3);
+
                 let mut peer_map = peer_map.write();
 
                 let (num_seeders, num_leechers) = match peer_map.deref_mut() {
@@ -349,6 +363,9 @@ impl<I: Ip> TorrentMapShards<I> {
         // Now, remove torrents that are forbidden by the access list or which
         // have no peers. This unavoidably locks a whole shard at a time.
         for torrent_map_shard in self.0.iter() {
+            #[cfg(greatest_ape_aquatic_verif)]
+            verif_probe(4);
+
             let mut torrent_map_shard = torrent_map_shard.write();
 
             torrent_map_shard.retain(|info_hash, peer_map| {
@@ -752,6 +769,10 @@ impl PeerStatus {
         }
     }
 }
+
+#[cfg(all(greatest_ape_aquatic_verif, kani))]
+#[path = "/verif/harness/in_udp_swarm.rs"]
+pub mod verif_harness;
 
 #[cfg(test)]
 mod tests {
